@@ -71,3 +71,7 @@ TABLE["C13"] = dict(engine="simworld", technique="property-based testing: Hypoth
 TABLE["C11"] = dict(engine="simworld", technique="property-based testing: Hypothesis-generated schedules of mailbox control messages, candidate establishment and byte-wise handshake progress, selection turns, timers, dilate() timing and kills of selected and non-selected links; role/one-connection/confirmed-by-Leader invariants after every step + convergence oracle at quiescence",
     text="Real Manager/Connector/L2 protocol pairs with 1-3 candidates per generation (listeners, relay), the link in use killed 0-4 times with either side noticing first, timers advanced by the tape; invariants are evaluated after every scheduler step and the two sides must end on the two ends of one link.",
     note=DIL_NOTE)
+
+TABLE["C17"] = dict(engine="simworld", technique="property-based testing: Hypothesis-generated close() points over the dilated world (tape-chosen, or steered to the moment a given Manager/Connector state is observed), peer variants (dilating, non-dilating, never dilates, turning silent), half-dead links; oracle = closed fires once and at that moment the side owns no listener, pending attempt or open TCP connection; incapable peer => connect() fails with OldPeerCannotDilateError",
+    text="close() is issued at every reachable Manager state (incl. FLUSHING/LONELY/ABANDONING and a candidate awaiting accept, reached by generator steering) against real peers; what the closing side still owns on the simulated network is inspected right after the scheduler event in which its closed notification fired. The leaked accepted connection this found was repaired in repo commit 0d9ef10 (fix:).",
+    note=DIL_NOTE)
